@@ -179,6 +179,8 @@ def build_one(prog: dict[str, Any], root: str, native: bool, strength2: bool = T
     crashed = None
     serr = io.StringIO()
     sout = io.StringIO()
+    real = (sys.stdout, sys.stderr)
+    sys.stdout, sys.stderr = sout, serr  # report_internal_error prints to sys.stdout / sys.stderr
     try:
         res = mb.build(sources=sources, options=options, alt_lib_path="tmp", stdout=sout, stderr=serr)
         msgs = res.errors
@@ -192,13 +194,22 @@ def build_one(prog: dict[str, Any], root: str, native: bool, strength2: bool = T
         msgs = []
         crashed = f"{type(e).__name__}: {str(e)[:200]}"
     finally:
+        sys.stdout, sys.stderr = real
         if sys.path and sys.path[0] == PLUGIN_DIR:
             del sys.path[0]
-    err = serr.getvalue()
-    if crashed is None and ("INTERNAL ERROR" in err or "Traceback (most recent call last)" in err):
-        crashed = "INTERNAL ERROR"
-    if crashed:
-        tail = [ln for ln in err.strip().splitlines() if ln.strip()]
-        if tail:
-            crashed += " :: " + tail[-1][:200]
+    crashed = crash_of(crashed, sout.getvalue(), serr.getvalue())
     return {"messages": list(msgs), "blocker": blocker, "crashed": crashed}
+
+
+def crash_of(crashed: str | None, out: str, err: str) -> str | None:
+    """Crash description: exception kind first (from the traceback mypy prints with show_traceback)."""
+    if crashed is None and not ("INTERNAL ERROR" in err or "Traceback (most recent call last)" in out + err):
+        return None
+    tb = [ln for ln in (out + "\n" + err).splitlines() if re.match(r"^[A-Za-z_.]+(Error|Exception|Exit|Interrupt)\b", ln)]
+    kind = tb[-1][:160] if tb else (crashed or "INTERNAL ERROR")
+    where = [ln.strip() for ln in (out + err).splitlines() if ln.strip().startswith("File \"/repo/")]
+    if where:
+        m = re.search(r'File "/repo/([^"]+)", line \d+, in (\w+)', where[-1])
+        if m:
+            kind += f" @ {m.group(1)}:{m.group(2)}"
+    return kind
